@@ -89,6 +89,16 @@ def check(cx):
         # stronger: every path from entry to a commit call passes the runner's *success* continuation:
         # no path from the runner call to commit that goes through an error block
         for r in run:
+            # the runner's Result is propagated with `?` (possibly after map_err): it must reach Try::branch
+            res = {op_local({"c": r.dst})}
+            for _ in range(3):
+                for c2 in f.calls():
+                    if c2.callee.rsplit("::", 1)[-1] in ("map_err", "map", "and_then", "into") and any(op_local(o) in res for o in c2.args):
+                        res.add(op_local({"c": c2.dst}))
+            prop = any(c2.defn == core.STD_TRY_BRANCH and any(op_local(o) in res for o in c2.args) for c2 in f.calls())
+            cx.verdict(prop, r1, fid + ":error-propagated", r.where(), "the statement's error leaves the closure through `?`",
+                       "the result of the statement runner is not propagated with `?` (swallowed or defaulted): a failed "
+                       "statement/batch falls through to COMMIT")
             succ_after = f.success_reach(r.term["to"]) if r.term["to"] is not None else set()
             ok2 = all(c.bb in succ_after for c in com)
             cx.verdict(ok2, r1, fid + ":success-arm", r.where(), "commit lies on the success continuation",
